@@ -388,6 +388,22 @@ func genPlanOpt(seed uint64, prop string, cold bool) *Plan {
 		n := 1 + r.intn(maxOps)
 		var ops []Op
 		for len(ops) < n {
+			// neighbour probe: the same observation before and after changing
+			// one metric of the object (memos and caches keyed on part of the
+			// object answer the second one with the first one's result)
+			if r.chance(0.1) {
+				if c := usable(t, true, 0); len(c) > 0 {
+					ci := c[r.intn(len(c))]
+					ver := p.Cells[ci].Ver
+					obs := Op{K: r.pick([]string{kVector, kScore, kRTrip, kVector, kScore}), C: ci, D: -1}
+					if obs.K == kScore {
+						obs.S = r.pick(apis[ver].ScoreNames())
+					}
+					m := specs[ver].Metrics[r.intn(len(specs[ver].Metrics))]
+					ops = append(ops, obs, Op{K: kSet, C: ci, D: -1, S: m.Abv, S2: r.pick(m.Values)}, obs)
+					continue
+				}
+			}
 			k := pickKind()
 			op := Op{K: k, C: -1, D: -1}
 			switch k {
